@@ -8,7 +8,7 @@ From Coq Require Import PeanoNat Lia Permutation.
 From Gv Require Import lib.Bytes lib.Json lib.Gql lib.Exec
      C01.ProofsBase C01.ProofsFuel C01.ProofsSplit C01.ProofsSim C01.ProofsJoin C01.ProofsOverlap
      C01.ProofsTwoStep C01.ProofsViol C01.ProofsCtxBase C01.ProofsCtx C01.ProofsTwoStepWf C01.ProofsPlanAlg
-     C01.ProofsPlan C01.ProofsPlanOk C01.ProofsDedup C01.ProofsListHop
+     C01.ProofsPlan C01.ProofsPlanOk C01.ProofsDedup C01.ProofsListHop C01.ProofsListHopWf C01.ProofsListHopTn
      C01.ProofsTvStatic C01.ProofsTvDefs C01.ProofsTvHidden C01.ProofsPlanGen C01.ProofsPlan2 C01.ProofsPlan2Link
      C01.ProofsPlan2Root C01.ProofsTvOrder.
 Open Scope N_scope.
@@ -42,12 +42,24 @@ Section TvMain.
     - exists (C - 3)%nat. unfold hop_fuel. split; lia.
   Qed.
 
+  Lemma list_hop_fuel_form (nnl nni : bool) C b : (b + 7 <= C)%nat -> exists c, C = list_hop_fuel nnl nni c /\ (b <= c)%nat.
+  Proof.
+    intros H. unfold list_hop_fuel. cbv zeta. destruct nnl, nni.
+    - exists (C - 6)%nat. split; lia.
+    - exists (C - 5)%nat. split; lia.
+    - exists (C - 5)%nat. split; lia.
+    - exists (C - 4)%nat. split; lia.
+  Qed.
+
   (* the monolith on the client's operation and on the plan theorem's operation *)
   Theorem mono_order U eQ C ds :
-    tv2_static_b ds = true -> (g0 + g0 + 4 <= C)%nat -> (length ds < C)%nat ->
+    tv2_static_b ds = true ->
+    univ2_contract_b sc subs decls rdecls U = true -> find_entity U Q [] = Some eQ ->
+    (g0 + g0 + 7 <= C)%nat -> (length ds < C)%nat ->
     sres_mpeq (mono_client2 U sc frags vdsM supM eQ C ds) (mono_ab2 U sc frags vdsM supM eQ C ds).
   Proof.
-    intros Hok HC Hlen. unfold tv2_static_b in Hok. apply andb_true_iff in Hok. destruct Hok as [Hok Hord].
+    intros Hok Hc HeQ HC Hlen. unfold tv2_static_b in Hok. apply andb_true_iff in Hok. destruct Hok as [Hok Hord].
+    unfold univ2_contract_b in Hc. apply andb_true_iff in Hc. destruct Hc as [_ Hrl].
     unfold plan2_static_b in Hok. repeat (apply andb_true_iff in Hok; destruct Hok as [Hok ?]).
     match goal with H : forallb (field2_static_b _ _ _ _ _ _ _ _ _ _) ds = true |- _ => rename H into HF end.
     match goal with H : names_distinct _ = true |- _ => rename H into Hk end.
@@ -62,7 +74,6 @@ Section TvMain.
       destruct (d2_fetch d) as [[[si T] ks]|] eqn:Efd.
       + unfold fetch2_static_b in Hfetch. cbv zeta in Hfetch.
         repeat (apply andb_true_iff in Hfetch; destruct Hfetch as [Hfetch ?]).
-        destruct (d2_shape d) as [nn|nnl nni] eqn:Esh; [|discriminate].
         destruct (find_type Q (s_types sc)) as [td|] eqn:Etd; [|discriminate].
         destruct (find_field (d2_name d) (td_fields td)) as [fd|] eqn:Efd'; [|discriminate].
         match goal with H : ty_eqb _ _ = true |- _ => apply ty_eqb_eq in H; rename H into Hty end.
@@ -72,8 +83,6 @@ Section TvMain.
         match goal with H : flat_okb _ _ _ _ _ _ (d2_selA d) = true |- _ => rename H into HokA end.
         match goal with H : negb (bytes_eqb T s_Entity) = true |- _ => apply negb_true_iff in H; rename H into HnE end.
         match goal with H : declared_obj sc T = true |- _ => rename H into HdT end.
-        cbn [shape_ty] in Hty.
-        destruct (hop_fuel_form nn C (g0 + g0)%nat HC) as (c & -> & Hc).
         assert (HflA : flatten sc frags vars g0 T (d2_selA d) = FlatOk (flat_of' T (d2_selA d))).
         { unfold flat_okb in HokA. unfold flat_of. destruct (flatten sc frags vars g0 T (d2_selA d)); [reflexivity|discriminate]. }
         assert (HflB : flatten sc frags vars g0 T (d2_selB d) = FlatOk (flat_of' T (d2_selB d))).
@@ -81,15 +90,38 @@ Section TvMain.
         assert (HflI : flatten sc frags vars g0 T (map snd (d2_sel d)) = FlatOk (flat_of' T (map snd (d2_sel d)))).
         { unfold flat_okb in Hord. unfold flat_of. destruct (flatten sc frags vars g0 T (map snd (d2_sel d))); [reflexivity|discriminate]. }
         unfold client_sel2, ab_sel2.
+        assert (Hfacts : forall c, (g0 + g0 <= c)%nat ->
+                   flatten sc frags vars c T (map snd (d2_sel d)) = FlatOk (flat_of' T (map snd (d2_sel d))) /\
+                   flatten sc frags vars c T (sel_untagged (d2_sel d)) = FlatOk (flat_of' T (d2_selA d)) /\
+                   flatten sc frags vars c T (sel_tagged (d2_sel d)) = FlatOk (flat_of' T (d2_selB d)) /\
+                   flatten sc frags vars c T (sel_untagged (d2_sel d) ++ sel_tagged (d2_sel d)) =
+                   FlatOk (flat_of' T (d2_selA d) ++ flat_of' T (d2_selB d))).
+        { intros c Hc. assert (Hc1 : (g0 <= c)%nat) by (clear -Hc; lia).
+          split; [apply flatten_mono_ok with (f := g0); [exact Hc1|exact HflI]|].
+          split; [apply flatten_mono_ok with (f := g0); [exact Hc1|exact HflA]|].
+          split; [apply flatten_mono_ok with (f := g0); [exact Hc1|exact HflB]|].
+          apply flatten_mono_ok with (f := (g0 + g0)%nat); [exact Hc|]. apply flatten_app; [exact HflA|exact HflB]. }
+        destruct (d2_shape d) as [nn|nnl nni] eqn:Esh; cbn [shape_ty] in Hty.
+        2:{ assert (HC' : (g0 + g0 + 7 <= C)%nat) by exact HC.
+            destruct (list_hop_fuel_form nnl nni C (g0 + g0)%nat HC') as (c & -> & Hc).
+            destruct (Hfacts c Hc) as (HcI & HcA & HcB & HcAB).
+            destruct (root_list_value U sc eQ HeQ td fd nnl nni T (d2_name d) Hrl Etd Efd' Hty) as (items & Hfv).
+            exact (list_hop_order sc U frags vars T (d2_sel d) (flat_of' T (map snd (d2_sel d))) (flat_of' T (d2_selA d))
+                                  (flat_of' T (d2_selB d)) c HdT HnE HcI HcA HcB HcAB Hdisj
+                                  Q {| ov_ent := eQ; ov_repr := None |} (d2_alias d) (d2_name d) (d2_args d) [] nnl nni td fd items
+                                  HF Etd Efd' Hty Elk Hfv). }
+        assert (HC' : (g0 + g0 + 4 <= C)%nat) by (clear -HC; lia).
+        destruct (hop_fuel_form nn C (g0 + g0)%nat HC') as (c & -> & Hc).
+        assert (Hc1 : (g0 <= c)%nat) by (clear -Hc; lia).
         assert (HcI : flatten sc frags vars c T (map snd (d2_sel d)) = FlatOk (flat_of' T (map snd (d2_sel d))))
-          by (apply flatten_mono_ok with (f := g0); [lia|exact HflI]).
+          by (apply flatten_mono_ok with (f := g0); [exact Hc1|exact HflI]).
         assert (HcA : flatten sc frags vars c T (sel_untagged (d2_sel d)) = FlatOk (flat_of' T (d2_selA d)))
-          by (apply flatten_mono_ok with (f := g0); [lia|exact HflA]).
+          by (apply flatten_mono_ok with (f := g0); [exact Hc1|exact HflA]).
         assert (HcB : flatten sc frags vars c T (sel_tagged (d2_sel d)) = FlatOk (flat_of' T (d2_selB d)))
-          by (apply flatten_mono_ok with (f := g0); [lia|exact HflB]).
+          by (apply flatten_mono_ok with (f := g0); [exact Hc1|exact HflB]).
         assert (HcAB : flatten sc frags vars c T (sel_untagged (d2_sel d) ++ sel_tagged (d2_sel d)) =
                        FlatOk (flat_of' T (d2_selA d) ++ flat_of' T (d2_selB d))).
-        { apply flatten_mono_ok with (f := (g0 + g0)%nat); [lia|]. apply flatten_app; assumption. }
+        { apply flatten_mono_ok with (f := (g0 + g0)%nat); [exact Hc|]. apply flatten_app; [exact HflA|exact HflB]. }
         exact (hop_order sc U frags vars Q {| ov_ent := eQ; ov_repr := None |} (d2_alias d) (d2_name d) (d2_args d) [] nn T td fd
                          (d2_sel d) (flat_of' T (map snd (d2_sel d))) (flat_of' T (d2_selA d)) (flat_of' T (d2_selB d)) c
                          HF Etd Efd' Hty Elk HdT HnE HcI HcA HcB HcAB Hdisj).
@@ -125,14 +157,14 @@ Section TvMain.
     intros Hok U eQ Hc HeQ fM fM' f1 f2 Hn Hn' HfM Hf1 Hf2.
     pose proof Hok as Hok'. unfold tv2_static_b in Hok'. apply andb_true_iff in Hok'. destruct Hok' as [Hp _].
     destruct (plan2_sound U sc subs frags vdsM supM eQ g0 kq f1 f2 fM decls rdecls tn HeQ ds Hp Hc Hn HfM Hf1 Hf2) as [G1 G2].
-    set (C := (fM + fM' + g0 + g0 + 4 + length ds)%nat).
+    set (C := (fM + fM' + g0 + g0 + 7 + length ds)%nat).
     assert (E1 : mono_ab2 U sc frags vdsM supM eQ C ds = mono_ab2 U sc frags vdsM supM eQ fM ds).
     { unfold mono_ab2 in *. apply exec_sels_fuel_mono; [unfold C; lia|exact Hn]. }
     assert (E2 : mono_client2 U sc frags vdsM supM eQ C ds = mono_client2 U sc frags vdsM supM eQ fM' ds).
     { unfold mono_client2 in *. apply exec_sels_fuel_mono; [unfold C; lia|exact Hn']. }
-    assert (HC : (g0 + g0 + 4 <= C)%nat) by (unfold C; lia).
+    assert (HC : (g0 + g0 + 7 <= C)%nat) by (unfold C; lia).
     assert (HL : (length ds < C)%nat) by (unfold C; lia).
-    pose proof (mono_order U eQ C ds Hok HC HL) as HO. rewrite E1, E2 in HO.
+    pose proof (mono_order U eQ C ds Hok Hc HeQ HC HL) as HO. rewrite E1, E2 in HO.
     apply sres_mpeq_peq in HO. destruct HO as [O1 O2].
     split; [rewrite G1; exact O1|tauto].
   Qed.
